@@ -166,6 +166,11 @@ def configs(tier):
 
 def run(tier):
     R = base.Run("C09", tier)
+    from . import apalache
+    ap = apalache.inductive("MC_TeloApa", "ConstInit", "Init", "IndInit", "IndInv")
+    R.cov["apalache_inductive_invariant"] = dict(ap, query="0 <= length <= MaxOps /\\ trueTicks + length <= MaxOps, MaxOps 1..10^6, tick cost and renewal amount 0..2x10^6 symbolic")
+    if not (ap["base"] and ap["step"]):
+        raise base.MachineryError("Telomere.tla: IndInv is not inductive (Apalache): %s" % ap)
     quick = tier == "quick"
     mcs = [{"maxops": 6, "errthr": 2, "renewal": True, "lifetime": 2, "idle": 2, "costs": [0, 1, 2, 6], "amounts": [1, 3]},
            {"maxops": 10, "errthr": 3, "renewal": False, "lifetime": 3, "idle": 1, "costs": [0, 1, 9], "amounts": [1]}]
